@@ -1,4 +1,5 @@
 import DiplomatModel.Sexp
+import DiplomatModel.CppMethod
 namespace DiplomatModel
 
 theorem optMapM_length {α β : Type} (f : α → Option β) (ps : List α) (cs : List β)
@@ -24,5 +25,32 @@ theorem filter_partition_length {α : Type} (p q : α → Bool) (l : List α) (h
   | cons x xs ih =>
     simp only [List.filter_cons, h x]
     cases p x <;> simp <;> omega
+
+open DiplomatModel.Lower DiplomatModel.AbiGen DiplomatModel.CppMethod in
+/-- with at most one write parameter, the declared parameters plus the write buffer are the method's parameters -/
+theorem params_split (m : AMethod)
+    (hw : (m.params.filter fun p => match p.2 with | .write => true | _ => false).length ≤ 1) :
+    (cppParams m).length + (if hasWriteParam m then 1 else 0) = m.params.length := by
+  have h4 : (cppParams m).length + (m.params.filter fun p => match p.2 with | .write => true | _ => false).length
+      = m.params.length := by
+    unfold cppParams
+    apply filter_partition_length
+    intro p
+    cases p.2 <;> rfl
+  have h5 : hasWriteParam m = true ↔ 1 ≤ (m.params.filter fun p => match p.2 with | .write => true | _ => false).length := by
+    unfold hasWriteParam
+    rw [List.any_eq_true]
+    constructor
+    · rintro ⟨p, hp, hq⟩
+      exact List.length_pos_of_mem (List.mem_filter.mpr ⟨hp, hq⟩)
+    · intro h
+      obtain ⟨p, hp⟩ := List.exists_mem_of_length_pos h
+      exact ⟨p, (List.mem_filter.mp hp).1, (List.mem_filter.mp hp).2⟩
+  generalize (m.params.filter fun p => match p.2 with | .write => true | _ => false).length = w at hw h4 h5
+  cases hwp : hasWriteParam m with
+  | true => have := h5.mp hwp; simp; omega
+  | false =>
+    have : ¬ 1 ≤ w := fun h => by simp [h5.mpr h] at hwp
+    simp; omega
 
 end DiplomatModel
